@@ -691,21 +691,26 @@ func checkC09(w *SketchWorld, slot int) (fails []mc.Fail) {
 
 // grammarShards: every well-formed stream of the documented grammar within
 // bounds, decoded by the implementation into each store kind (C07 direction 2).
-func grammarShards(tier string) []mc.Shard {
+// grammarBlock: one store block of the documented grammar with the bins the
+// documentation assigns to it.
+type grammarBlock struct {
+	bytes []byte
+	bins  []model.WireBin
+	neg   bool
+	// far: indexes near both ends of the int32 range (the delta between them does
+	// not fit in 32 bits). Array-backed targets would have to allocate the whole
+	// span, and the paginated store its page table unless every count is a unit
+	// entry of its buffer: those targets are skipped for such blocks.
+	far, farPaged bool
+}
+
+// grammarBlocks enumerates the first blocks of the grammar (DESIGN.md section 4, C07).
+func grammarBlocks() []grammarBlock {
+	type blk = grammarBlock
 	firsts := []int64{-33, 0, 31}
 	deltas := []int64{-33, -2, -1, 0, 1, 2, 33, 1000}
 	single := []float64{0, 0.5, 1, 2, 3}
 	patterns := [][]float64{{1, 1, 1}, {0.5, 2, 3}, {0, 1, 0}, {2, 0, 0.5}}
-	type blk struct {
-		bytes []byte
-		bins  []model.WireBin
-		neg   bool
-		// far: indexes near both ends of the int32 range (the delta between them does
-		// not fit in 32 bits). Array-backed targets would have to allocate the whole
-		// span, and the paginated store its page table unless every count is a unit
-		// entry of its buffer: those targets are skipped for such blocks.
-		far, farPaged bool
-	}
 	var all []blk
 	mk := func(neg bool, layout int, first int64, ds []int64, cs []float64) blk {
 		typ := byte(1)
@@ -806,6 +811,12 @@ func grammarShards(tier string) []mc.Shard {
 			all = append(all, b)
 		}
 	}
+	return all
+}
+
+func grammarShards(tier string) []mc.Shard {
+	type blk = grammarBlock
+	all := grammarBlocks()
 	// a reduced set of second blocks
 	var second []blk
 	for i, b := range all {
@@ -1106,6 +1117,73 @@ func grammarShards(tier string) []mc.Shard {
 		}})
 	}
 	return shards
+}
+
+// grammarCutShards: every strict prefix of every single-block stream of the
+// grammar (blocks the implementation itself never writes included: zero bins,
+// negative strides, repeated indexes) must be refused by every target kind.
+func grammarCutShards() []mc.Shard {
+	const nsh = 4
+	var out []mc.Shard
+	for sh := 0; sh < nsh; sh++ {
+		sh := sh
+		name := fmt.Sprintf("C08/grammar-cuts/%d-of-%d", sh+1, nsh)
+		run := func(only string) *mc.Result {
+			res := &mc.Result{Scenario: name, Property: "C08", Exhaustive: true}
+			ms := MapSpec{Kind: 'G', Alpha: 0.02}
+			m := ms.New()
+			distinct := map[string]struct{}{}
+			for i, b := range grammarBlocks() {
+				if i%nsh != sh || b.far {
+					continue
+				}
+				for t := 1; t < len(b.bytes); t++ {
+					prefix := b.bytes[:t:t]
+					key := fmt.Sprintf("% x", prefix)
+					if only != "" && only != key {
+						continue
+					}
+					distinct[key] = struct{}{}
+					for _, k := range codecTargets {
+						mc.ProgressInput("decoding the cut stream", prefix, 0)
+						res.Evaluations++
+						func() {
+							defer func() {
+								if r := recover(); r != nil {
+									res.Violations = append(res.Violations, mc.Violation{Property: "C08", Clause: "C08.no-panic", Scenario: name, Seed: "stream", History: []string{key},
+										Detail: fmt.Sprintf("decoding the block % x cut after %d bytes into %s stores panicked: %v", b.bytes, t, k, r)})
+								}
+							}()
+							if _, err := ddsketch.DecodeDDSketch(prefix, k.Provider(), m); err == nil {
+								res.Violations = append(res.Violations, mc.Violation{Property: "C08", Clause: "C08.no-silent-truncation", Scenario: name, Seed: "stream", History: []string{key},
+									Detail: fmt.Sprintf("the well-formed block % x cut after %d bytes (inside the block) was decoded into %s stores without error", b.bytes, t, k)})
+							}
+						}()
+						if len(res.Violations) > 3 {
+							res.Violations = res.Violations[:3]
+						}
+					}
+				}
+			}
+			res.Distinct = int64(len(distinct))
+			res.States, res.Transitions = res.Evaluations, res.Evaluations
+			res.Count("truncations", res.Evaluations)
+			res.Samples = []string{"block 0d 02 3e 41 00 00 cut after 1..5 bytes, into D S P L3 H3"}
+			return res
+		}
+		out = append(out, mc.Shard{Name: name, Weight: 50, Run: func(time.Time) *mc.Result { return run("") },
+			Replay: func(_ string, history []string) ([]mc.Fail, error) {
+				if len(history) == 0 {
+					return nil, fmt.Errorf("a grammar-cut replay needs the cut stream")
+				}
+				var fails []mc.Fail
+				for _, v := range run(history[0]).Violations {
+					fails = append(fails, mc.Fail{Clause: v.Clause, Detail: v.Detail})
+				}
+				return fails, nil
+			}})
+	}
+	return out
 }
 
 // mismatchShard: every ordered pair of distinct mappings as (receiver, stream).
@@ -1470,7 +1548,7 @@ func init() {
 			// longest varfloat is then a cut point); C08 compares with refwire, not with
 			// the reference weights, so they need not survive the +1/-1 transform
 			sh := shardsOfSketchSpecs(corpusSpecs("C08", tier, 3, 4, true, checkC08, skAddW(0, 3.3, 0.1), skAddW(0, -2.2, 1.0/3)))
-			return append(sh, mismatchShard(tier))
+			return append(append(sh, mismatchShard(tier)), grammarCutShards()...)
 		},
 		ShardBudget: budget(70*time.Second, 12*time.Minute),
 	})
